@@ -1,6 +1,7 @@
 import MaltModel.Rt.Dedent
 import MaltModel.Rt.Lambda
 import MaltModel.Proofs.C15Dedent
+import MaltModel.Proofs.C15Lex
 /-!
 # C15 — source recovery returns exactly the code of the function being converted
 
@@ -121,6 +122,108 @@ theorem C15_lambda_total (cands : List Cand) (d : Nat) (tgt : Cand)
     rw [this] at hin
     simp at hin
 
+private theorem nodeMatches_iff (m t : Sig) : nodeMatches m (specOf t) = true ↔ specOf m = specOf t := by
+  simp only [nodeMatches, specOf, Bool.and_eq_true, beq_iff_eq, ArgSpec.mk.injEq]
+  constructor
+  · rintro ⟨⟨⟨h1, h2⟩, h3⟩, h4⟩; exact ⟨h1, h2.symm, h3.symm, h4⟩
+  · rintro ⟨h1, h2, h3, h4⟩; exact ⟨⟨⟨h1, h2.symm⟩, h3.symm⟩, h4⟩
+
+private theorem filter_eq_singleton {α} [DecidableEq α] (p : α → Bool) (a : α) :
+    ∀ (l : List α), l.Nodup → a ∈ l → p a = true → (∀ b ∈ l, p b = true → b = a) → l.filter p = [a] := by
+  intro l
+  induction l with
+  | nil => intro _ h; simp at h
+  | cons x xs ih =>
+    intro hnd hmem hpa huniq
+    have hnd' := List.nodup_cons.mp hnd
+    by_cases hx : x = a
+    · subst hx
+      have : xs.filter p = [] := by
+        rw [List.filter_eq_nil_iff]
+        intro b hb hpb
+        have := huniq b (List.mem_cons_of_mem _ hb) (by simpa using hpb)
+        subst this
+        exact hnd'.1 hb
+      simp [List.filter, hpa, this]
+    · have hmem' : a ∈ xs := by
+        rcases List.mem_cons.mp hmem with h | h
+        · exact absurd h.symm hx
+        · exact h
+      have hpx : p x = false := by
+        cases hp : p x with
+        | false => rfl
+        | true => exact absurd (huniq x (by simp) hp) hx
+      simp only [List.filter, hpx]
+      exact ih hnd'.2 hmem' hpa (fun b hb => huniq b (List.mem_cons_of_mem _ hb))
+
+/-- **Any number of lambdas per line, distinguishable ones.**  If no other candidate spanning the definition
+line has the target's visible signature (names/arity as `_node_matches_argspec` compares them), the target is
+RETURNED — selection succeeds and is right.  (`cands.Nodup`: candidates are distinct AST nodes.) -/
+theorem C15_lambda_distinct (cands : List Cand) (d : Nat) (tgt : Cand) (hnd : cands.Nodup)
+    (hmem : tgt ∈ cands) (hspan : spans d tgt = true) (hdist : distinguishable cands d tgt = true) :
+    select cands d (specOf tgt.sig) = .ok tgt := by
+  have hin : tgt ∈ cands.filter (spans d) := List.mem_filter.mpr ⟨hmem, hspan⟩
+  have hndf : (cands.filter (spans d)).Nodup := hnd.filter _
+  have hsing : (cands.filter (spans d)).filter (fun c => nodeMatches c.sig (specOf tgt.sig)) = [tgt] := by
+    apply filter_eq_singleton _ _ _ hndf hin (C15_nodeMatches_self _)
+    intro b hb hpb
+    simp only [distinguishable, List.all_eq_true, Bool.or_eq_true, beq_iff_eq, bne_iff_ne, ne_eq] at hdist
+    rcases hdist b hb with h | h
+    · exact h
+    · exact absurd ((nodeMatches_iff _ _).mp hpb) h
+  match hcs : cands.filter (spans d) with
+  | [] => rw [hcs] at hin; simp at hin
+  | [c] =>
+    rw [hcs] at hin
+    have : tgt = c := by simpa using hin
+    rw [sel_one _ _ _ _ hcs, this]
+  | c1 :: c2 :: t =>
+    rw [sel_many _ _ _ _ _ _ hcs]
+    rw [hcs] at hsing
+    rw [hsing]
+
+/-- **Ambiguity is REPORTED, never resolved silently.**  If another candidate on the line has the target's
+visible signature, the result is the explicit error — whatever the number and order of lambdas on the line. -/
+theorem C15_lambda_ambiguity_reported (cands : List Cand) (d : Nat) (tgt : Cand)
+    (hmem : tgt ∈ cands) (hspan : spans d tgt = true) (hdist : distinguishable cands d tgt = false) :
+    select cands d (specOf tgt.sig) = .ambiguous := by
+  have hin : tgt ∈ cands.filter (spans d) := List.mem_filter.mpr ⟨hmem, hspan⟩
+  -- a second, different candidate with the same visible signature
+  have hex : ∃ m ∈ cands.filter (spans d), m ≠ tgt ∧ nodeMatches m.sig (specOf tgt.sig) = true := by
+    unfold distinguishable at hdist
+    rw [List.all_eq_false] at hdist
+    obtain ⟨m, hm, hne⟩ := hdist
+    simp only [Bool.or_eq_true, beq_iff_eq, bne_iff_ne, ne_eq, not_or, Decidable.not_not] at hne
+    exact ⟨m, hm, hne.1, (nodeMatches_iff _ _).mpr hne.2⟩
+  obtain ⟨m, hm, hne, hmm⟩ := hex
+  cases hs : select cands d (specOf tgt.sig) with
+  | ambiguous => rfl
+  | noMatch =>
+    have := (C15_lambda_errors cands d (specOf tgt.sig)).1.mp hs
+    rw [this] at hin; simp at hin
+  | ok n =>
+    exfalso
+    rcases C15_lambda_select_sound cands d _ n hs with ⟨_, _, hsole | ⟨_, huniq⟩⟩
+    · rw [hsole] at hin hm
+      have h1 : tgt = n := by simpa using hin
+      have h2 : m = n := by simpa using hm
+      exact hne (h2.trans h1.symm)
+    · have h1 := huniq tgt hmem hspan (C15_nodeMatches_self _)
+      have hm' := List.mem_filter.mp hm
+      have h2 := huniq m hm'.1 hm'.2 hmm
+      exact hne (h2.trans h1.symm)
+
+/-- **Partition.**  For every list of distinct candidate nodes and every lambda among them that spans its
+definition line, exactly one of two things happens: the lambdas on the line are distinguishable and the right node
+is returned, or they are not and the explicit ambiguity error is raised.  A wrong lambda is impossible. -/
+theorem C15_lambda_partition (cands : List Cand) (d : Nat) (tgt : Cand) (hnd : cands.Nodup)
+    (hmem : tgt ∈ cands) (hspan : spans d tgt = true) :
+    (distinguishable cands d tgt = true ∧ select cands d (specOf tgt.sig) = .ok tgt) ∨
+    (distinguishable cands d tgt = false ∧ select cands d (specOf tgt.sig) = .ambiguous) := by
+  cases h : distinguishable cands d tgt with
+  | true => exact Or.inl ⟨rfl, C15_lambda_distinct cands d tgt hnd hmem hspan h⟩
+  | false => exact Or.inr ⟨rfl, C15_lambda_ambiguity_reported cands d tgt hmem hspan h⟩
+
 /-- With the whole search: statements up to the first one starting after `def_line` are searched, so the
 creating node is among the candidates whenever its top-level statement starts at or before that line and
 the statements' line numbers are non-decreasing (CPython). -/
@@ -156,6 +259,14 @@ example : nodeMatches lamPos.sig (specOf lamPos.sig) = true := by decide
 /-- the hypotheses of `C15_lambda` with several candidates on the line -/
 example : lamPlain ∈ [lamPlain, lamOther] ∧ spans 1 lamPlain = true ∧
     select [lamPlain, lamOther] 1 (specOf lamPlain.sig) = .ok lamPlain := by decide
+/-- five lambdas on one line, two of them with the same parameter names: the three others are recovered, the tie
+is reported for both of its members -/
+example :
+    let l := [lamPos, lamOther, lamPos2, lamPlain, { lamPlain with id := 9 }]
+    l.Nodup ∧ distinguishable l 1 lamPos2 = true ∧ select l 1 (specOf lamPos2.sig) = .ok lamPos2 ∧
+    select l 1 (specOf lamOther.sig) = .ok lamOther ∧
+    distinguishable l 1 lamPlain = false ∧ select l 1 (specOf lamPlain.sig) = .ambiguous ∧
+    distinguishable l 1 lamPos = false ∧ select l 1 (specOf lamPos.sig) = .ambiguous := by decide
 /-- identical signatures: an explicit error, not a guess -/
 example : select [lamPlain, { lamPlain with id := 7 }] 1 (specOf lamPlain.sig) = .ambiguous := by decide
 example : select [lamOther] 3 (specOf lamOther.sig) = .noMatch := by decide
@@ -436,3 +547,93 @@ example : String.ofList (renderA (adjust "    ".toList exFstr)) =
     "def f(a):\n    s = f\"\"\"x{{\n  {a}\n \"\"\"\n    return s\n" := by decide
 
 end Malt.Dedent
+
+/-! ## Text, without the tokenizer oracle: the Lean lexer (MaltModel/Rt/Lex.lean)
+
+`Lex.step` is a look-ahead-free automaton for Python's string literals, comments and explicit continuations.
+The fragment predicate `contsInCode` ("every backslash-newline is read in plain code") is the NEGATION of the
+finding class `backslash_newline_inside_string_or_comment`; theorem and classifier partition all texts. -/
+namespace Malt.Lex
+open Malt.Dedent
+
+/-- **Unfolding, closed form over ALL texts in the fragment.**  If every backslash-newline of `s` is read in plain
+code, then on `_unfold_continuations(s)` the automaton reads every remaining character in the SAME mode as before
+(the run is the old run minus the continuation characters, and it ends in the same mode): every string literal
+and every comment is preserved character for character, and `unfold` coincides with the token-aware unfolding
+`specUnfold`. -/
+theorem C15_unfold_lex (s : Str) (h : contsInCode .c0 s = true) :
+    trace .c0 (unfold s) = dropConts (trace .c0 s) ∧ final .c0 (unfold s) = final .c0 s ∧
+    unfold s = specUnfold .c0 s :=
+  ⟨(trace_unfold s .c0 h).1, (trace_unfold s .c0 h).2, unfold_eq_spec s .c0 h⟩
+
+/-- **Exactly when.**  The textual `replace('\\\n', '')` agrees with the token-aware unfolding if AND ONLY IF no
+backslash-newline lies inside a string literal or a comment (or behind a pending quote/backslash): outside the
+fragment `_unfold_continuations` provably deletes characters that are not a continuation. -/
+theorem C15_unfold_lex_exact (s : Str) : unfold s = specUnfold .c0 s ↔ contsInCode .c0 s = true := by
+  constructor
+  · intro h
+    apply contsInCode_of_count
+    have h1 := unfold_length s
+    have h2 := specUnfold_length s .c0
+    rw [h] at h1
+    omega
+  · exact unfold_eq_spec s .c0
+
+/-- non-vacuity: continuations between tokens, a string containing `#` and an escaped quote, a comment -/
+example : contsInCode .c0 "x = 1 + \\\n    f('a#\\'b')  # c \\ d\ny = \"\"\"t\n\"\"\" \\\n".toList = true := by decide
+/-- the raw-string finding: outside the fragment, and `unfold` differs from the token-aware unfolding -/
+example : contsInCode .c0 "s = r'a\\\nb'".toList = false ∧
+    unfold "s = r'a\\\nb'".toList ≠ specUnfold .c0 "s = r'a\\\nb'".toList := by decide
+/-- the comment finding -/
+example : contsInCode .c0 "x = 1  # c \\\ny = 2\n".toList = false := by decide
+/-- an escaped backslash followed by the newline inside a non-raw string -/
+example : contsInCode .c0 "s = \"\"\"a\\\\\nb\"\"\"".toList = false := by decide
+
+/-
+Full statement (what the property asks for, now closed over the text — no tokenizer oracle):
+
+    theorem C15_recover : ∀ s, the token sequence of dedent_block(s) = the token sequence of s, gaps modulo the
+                               common indentation
+
+It is FALSE of the pinned code outside the fragment (`C15_unfold_lex_exact`: `unfold` then deletes characters of
+string literals / comments; Lean counterexamples above and in known_findings.d/C15.json).  Proved: the `_partial`
+form on the fragment
+  (F1) `contsInCode .c0 s`                          — negation of class backslash_newline_inside_string_or_comment
+  (F2) `wf p as ∧ startsOk p as ∧ renderA as = unfold s` for `as = lexA (unfold s)`
+                                                     — the Lean lexer's stream of the unfolded text is well formed
+                                                       (not mixing tabs/spaces, balanced, ends with ENDMARKER, …)
+Both are decidable; the driver op `c15.why` evaluates them and names the reason when one fails, so theorem and
+classifier partition the inputs.  What stays sampled: that `tokenize` agrees with `lexA` (correspondence on every
+generated and /repo source), and that re-lexing the unfolded text gives the chunks of the original (needs the two
+further classes backslash_newline_joins_adjacent_tokens / backslash_newline_in_indentation to be excluded; checked
+per case, not proved).
+-/
+
+/-- **`dedent_block ∘ unfold_continuations` on the fragment, over the Lean lexer.**  The result is the text of the
+SAME token sequence (`lexA (unfold s)`, every string literal and comment untouched) with gaps rewritten as
+`dedentSpec` prescribes: logical-line starts lose exactly the common indentation `p`, other line-initial gaps only
+lose leading blanks; and `unfold s` is the token-aware unfolding of `s`. -/
+theorem C15_recover_partial (s p : Str)
+    (hF1 : contsInCode .c0 s = true)
+    (hr : renderA (lexA (unfold s)) = unfold s)
+    (hwf : wf p (lexA (unfold s)) = true) (hst : startsOk p (lexA (unfold s)) = true) :
+    unfold s = specUnfold .c0 s ∧
+    dedentBlock s ((lexA (unfold s)).map (·.tok)) = .ok (renderA (adjust p (lexA (unfold s)))) ∧
+    dedentSpec p (lexA (unfold s)) (adjust p (lexA (unfold s))) = true ∧
+    (adjust p (lexA (unfold s))).map (·.tok) = (lexA (unfold s)).map (·.tok) := by
+  have h := C15_dedent_text p (lexA (unfold s)) s hwf hst hr.symm
+  exact ⟨unfold_eq_spec s .c0 hF1, h.1, h.2, C15_dedent_tokens_untouched p true true _ _ h.2⟩
+
+private def exSrc : Str :=
+  "    def f(a):\n        x = [1,\n  2]  # c\n        s = r\"\"\"a\n b\"\"\" + \\\n            'q#'\n\n        return x\n".toList
+
+/-- non-vacuity: the hypotheses hold for an indented method with an under-indented bracket continuation, a
+comment, a raw triple-quoted string with an under-indented line, a continuation and a blank line — computed by
+the Lean lexer alone -/
+example : contsInCode .c0 exSrc = true ∧ renderA (lexA (unfold exSrc)) = unfold exSrc ∧
+    wf "    ".toList (lexA (unfold exSrc)) = true ∧ startsOk "    ".toList (lexA (unfold exSrc)) = true := by
+  decide +kernel
+example : String.ofList (renderA (adjust "    ".toList (lexA (unfold exSrc)))) =
+    "def f(a):\n    x = [1,\n  2]  # c\n    s = r\"\"\"a\n b\"\"\" +             'q#'\n\n    return x\n" := by decide +kernel
+
+end Malt.Lex
